@@ -55,3 +55,39 @@ Definition container_for (cs : cells) (with_pnc : bool) (ring : option (list (li
      g_nnodes := length (enc_nodes cs) |}.
 
 Definition single_part (cs : cells) : Prop := Forall (fun c : list (list Z) => length c = 1) cs.
+
+(* ------------------------------------------------------------------------- *)
+(* an independent decoder of the raw variables, written from CF 7.5           *)
+(* ------------------------------------------------------------------------- *)
+(* the parts of one cell: the shortest run of parts whose node counts add up to the cell's
+   node count exactly (a part that straddles two cells is an error) *)
+Fixpoint take_parts (parts : list nat) (need acc : nat) : option (list nat * list nat) :=
+  match parts with
+  | [] => None
+  | p :: r =>
+      if Nat.eqb (acc + p) need then Some ([p], r)
+      else if need <? acc + p then None
+      else match take_parts r need (acc + p) with
+           | Some (ps, rest) => Some (p :: ps, rest)
+           | None => None
+           end
+  end.
+
+(* part node counts grouped by cell; every part must be used *)
+Fixpoint group (node_count parts : list nat) : option (list (list nat)) :=
+  match node_count with
+  | [] => match parts with [] => Some [] | _ => None end
+  | n :: r =>
+      match take_parts parts n 0 with
+      | Some (ps, rest) => option_map (cons ps) (group r rest)
+      | None => None
+      end
+  end.
+
+Definition spec_decode (node_count parts : list nat) (nodes : list Z) : option cells :=
+  option_map (fun g => split_by (map (@length nat) g) (split_by parts nodes)) (group node_count parts).
+
+(* for a container: node_count absent = all ones, part_node_count absent = one part per cell *)
+Definition spec_decode_container (g : container) (nodes : list Z) : option cells :=
+  let nc := nodes_per_geometry g in
+  spec_decode nc (match g_pnc g with Some p => p | None => nc end) nodes.
